@@ -157,6 +157,12 @@ func (e *Engine) verifyFunc(key string, interf bool) {
 				st.pc = append(st.pc, g)
 			}
 		}
+		// construction invariants hold of every object of the type (proved where it is allocated, immutable afterwards)
+		for _, h := range ts.ConstInvs {
+			if g := fc.evalBoolClause(sc, h, ""); g != "" {
+				st.pc = append(st.pc, g)
+			}
+		}
 	}
 	fr.lets = map[string]Val{}
 	for _, l := range fc.eff.lets {
@@ -331,6 +337,7 @@ func (fc *fnCtx) atReturn(st *State, fr *frame, res []Val, ts *TypeSpec) {
 				}
 			}
 		}
+		fc.checkConstInvs(st, fr)
 		fc.checkFrame(st, fr, "frame")
 		if len(fc.exitHooks) > 0 {
 			for _, h := range fc.exitHooks {
@@ -338,6 +345,34 @@ func (fc *fnCtx) atReturn(st *State, fr *frame, res []Val, ts *TypeSpec) {
 			}
 		}
 	})
+}
+
+// checkConstInvs: every object of a type with construction invariants that this call allocated satisfies them when
+// the call returns (their fields are immutable: nobody can change them afterwards).
+func (fc *fnCtx) checkConstInvs(st *State, fr *frame) {
+	for _, ca := range st.cAllocs {
+		ts := fc.e.typeSpecNamed(ca.named)
+		if ts == nil {
+			continue
+		}
+		sc := fc.specCtxFor(st, fr)
+		n := sc.withVar("this", Val{T: ca.ref, S: SU, GT: ptrIfStruct(ca.named)})
+		for _, ci := range ts.ConstInvs {
+			name := fmt.Sprintf("%s.constinv.%s.%d@%s", fc.key, ca.named.Obj().Name(), ci.Ord, ca.label)
+			if g := fc.evalBoolClause(n, ci, name); g != "" {
+				fc.emit(st, name, "constinv", ci.Text, clauseLoc(ci), g, ci.Tags)
+			}
+		}
+	}
+}
+
+// typeSpecNamed returns the type contract of a named type.
+func (e *Engine) typeSpecNamed(named *types.Named) *TypeSpec {
+	pkg := ""
+	if named.Obj().Pkg() != nil {
+		pkg = named.Obj().Pkg().Name()
+	}
+	return e.contracts.Types[pkg+"."+named.Obj().Name()]
 }
 
 func (fc *fnCtx) atPanic(st *State, fr *frame, why string, ts *TypeSpec) {
